@@ -36,10 +36,18 @@ pub struct IPFixParser {
 
 impl IPFixParser {
     pub fn parse(&mut self, packet: &[u8]) -> Result<ParsedNetflow, NetflowParseError> {
+        self.parse_packet(packet)
+            .map(|(remaining, packet)| ParsedNetflow::new(remaining, packet))
+    }
+
+    /// Like `parse`, but hands back the unparsed tail as a slice of `packet`
+    /// instead of copying it.
+    pub(crate) fn parse_packet<'a>(
+        &mut self,
+        packet: &'a [u8],
+    ) -> Result<(&'a [u8], NetflowPacket), NetflowParseError> {
         IPFix::parse(packet, self)
-            .map(|(remaining, ipfix)| {
-                ParsedNetflow::new(remaining, NetflowPacket::IPFix(ipfix))
-            })
+            .map(|(remaining, ipfix)| (remaining, NetflowPacket::IPFix(ipfix)))
             .map_err(|e| {
                 NetflowParseError::Partial(PartialParse {
                     version: 10,
